@@ -1,5 +1,5 @@
 (* C16: dhms2sec (sec2dhms n) = n and hms2sec (sec2hms n) = n for every int64 n except -2^63 *)
-From Miller Require Import Base.Bytes C16.Model C16.TextProofs C16.GmtProofs.
+From Miller Require Import Base.Bytes C16.Model C16.TextProofs C16.FormatProofs C16.GmtProofs.
 Open Scope char_scope.
 Open Scope Z_scope.
 
